@@ -267,10 +267,14 @@ func (sv *negServer) serve(conn net.Conn) {
 			case "otherid":
 				w("<resumed xmlns='" + nsSM + "' previd='not-" + previd + "' h='0'/>")
 			case "failed":
-				if sv.variant%2 == 0 {
+				// a refusal with the usual condition (not one the decoder knows), without any, with one it knows
+				switch sv.variant % 3 {
+				case 0:
 					w("<failed xmlns='" + nsSM + "'><item-not-found xmlns='urn:ietf:params:xml:ns:xmpp-stanzas'/></failed>")
-				} else {
+				case 1:
 					w("<failed xmlns='" + nsSM + "'/>")
+				default:
+					w("<failed xmlns='" + nsSM + "'><unexpected-request xmlns='urn:ietf:params:xml:ns:xmpp-stanzas'/></failed>")
 				}
 			case "other":
 				w("<message xmlns='jabber:client'/>")
@@ -728,6 +732,15 @@ func (np negProp) Generate(rng *rand.Rand, tier string, st *Stats) []Case {
 								for _, alt := range negAlt[step] {
 									mk(insecure, sm, append(append([][]string{}, pre...), h.with(step, alt, "smid", hx("sm-NEW")).op())...)
 									st.Inc("deviation_" + step)
+									if step == "res" && resumable {
+										// what the NEXT connection presents after this reply to <resume/> (a stale id must
+										// never be presented again); the refusal in all its three spellings
+										for k := 0; k < 3; k++ {
+											mk(insecure, sm, append(append([][]string{}, pre...), h.with(step, alt, "smid", hx("sm-NEW")).op(),
+												happy(tlsOff, mand, true).with("smid", hx("sm-THIRD")).op())...)
+											st.Inc("third_connection_after_resume_reply")
+										}
+									}
 								}
 							}
 						}
